@@ -12,6 +12,9 @@ import DitModel.Lemmas.InfoReal
 import Mathlib.Analysis.SpecialFunctions.Sqrt
 import Mathlib.Analysis.SpecialFunctions.Pow.Real
 import Mathlib.Analysis.SpecialFunctions.Log.Base
+import Mathlib.Analysis.SpecialFunctions.Log.Deriv
+import Mathlib.Analysis.Calculus.Deriv.MeanValue
+import Mathlib.Analysis.Calculus.Deriv.Pow
 import Mathlib.Tactic.Linarith
 import Mathlib.Tactic.Ring
 import Mathlib.Tactic.FieldSimp
@@ -493,6 +496,27 @@ theorem alignUnion_swap (t1 t2 : Tab κ ℝ) :
     exact Or.comm
   exact hp.map _
 
+/-- With duplicate-free keys, the union alignment depends on the stored orders only up to a
+permutation of the pairs. -/
+theorem alignUnion_perm {t1 t1' t2 t2' : Tab κ ℝ} (h1 : t1.Perm t1') (h2 : t2.Perm t2')
+    (hnd1 : (keys t1).Nodup) (hnd2 : (keys t2).Nodup) :
+    (alignUnion t1 t2).Perm (alignUnion t1' t2') := by
+  unfold alignUnion
+  have hp : (dedup (keys t1 ++ keys t2)).Perm (dedup (keys t1' ++ keys t2')) := by
+    rw [List.perm_ext_iff_of_nodup (nodup_dedup _) (nodup_dedup _)]
+    intro a
+    simp only [mem_dedup, List.mem_append]
+    have e1 : a ∈ keys t1 ↔ a ∈ keys t1' := (h1.map (·.1)).mem_iff
+    have e2 : a ∈ keys t2 ↔ a ∈ keys t2' := (h2.map (·.1)).mem_iff
+    rw [e1, e2]
+  have e : (dedup (keys t1' ++ keys t2')).map (fun k => (lookupD 0 t1' k, lookupD 0 t2' k))
+      = (dedup (keys t1' ++ keys t2')).map (fun k => (lookupD 0 t1 k, lookupD 0 t2 k)) := by
+    apply List.map_congr_left
+    intro k _
+    rw [lookupD_perm h1 hnd1, lookupD_perm h2 hnd2]
+  rw [e]
+  exact hp.map _
+
 end Align
 
 /-! ### Pairs `(0, q)` -/
@@ -895,5 +919,788 @@ theorem jsd_perm (log : ℝ → ℝ) {l l' : List (List ℝ × ℝ)} (h : l.Perm
     exact mixCol_perm h x
 
 end JSDPerm
+
+/-! ### The power-sum family (Rényi, Tsallis/Hellinger, alpha divergences) -/
+
+section Power
+
+theorem powerSum_eq (a b : ℝ) (pq : List (ℝ × ℝ)) :
+    powerSum realOps a b pq
+      = ((pq.filter (fun r => decide (r.1 ≠ 0 ∧ r.2 ≠ 0))).map
+          (fun r => r.1 ^ a * r.2 ^ b)).sum := by
+  unfold powerSum
+  rw [lsum_eq_sum, ← Dit.Lemmas.InfoAlg.sum_map_filter_of_zero
+    (fun r : ℝ × ℝ => decide (r.1 ≠ 0 ∧ r.2 ≠ 0))]
+  · apply congrArg
+    apply List.map_congr_left
+    intro r hr
+    have := (List.mem_filter.mp hr).2
+    simp only [ne_eq, decide_eq_true_eq] at this
+    have e : (r.1 == 0 || r.2 == 0) = false := by simp [this.1, this.2]
+    rw [e]; rfl
+  · intro r _ hr
+    have : r.1 = 0 ∨ r.2 = 0 := by
+      by_contra h
+      rw [not_or] at h
+      simp [h.1, h.2] at hr
+    have e : (r.1 == 0 || r.2 == 0) = true := by
+      rcases this with h | h <;> simp [h]
+    rw [e]; rfl
+
+theorem powerSum_self (a b : ℝ) (hab : a + b = 1) (ps : List ℝ) (hnn : ∀ p ∈ ps, 0 ≤ p) :
+    powerSum realOps a b (ps.map (fun p => (p, p))) = ps.sum := by
+  unfold powerSum
+  rw [lsum_eq_sum, List.map_map]
+  conv_rhs => rw [← List.map_id ps]
+  apply congrArg
+  apply List.map_congr_left
+  intro p hp
+  simp only [Function.comp_apply, id]
+  by_cases h : p = 0
+  · simp [h]
+  · have hpos : 0 < p := lt_of_le_of_ne (hnn p hp) (Ne.symm h)
+    have e : (p == 0 || p == 0) = false := by simp [h]
+    rw [e]
+    show p ^ a * p ^ b = p
+    rw [← Real.rpow_add hpos, hab, Real.rpow_one]
+
+theorem powerSum_swap (R : RealOps ℝ) (a b : ℝ) (pq : List (ℝ × ℝ)) :
+    powerSum R b a (pq.map Prod.swap) = powerSum R a b pq := by
+  unfold powerSum
+  rw [List.map_map]
+  congr 1
+  apply List.map_congr_left
+  intro r _
+  simp only [Function.comp_apply, Prod.fst_swap, Prod.snd_swap]
+  rw [Bool.or_comm, mul_comm]
+
+end Power
+
+/-! ### Maximum correlation: the companion matrix -/
+
+section MaxCorr
+
+theorem zipWith_map_self {β γ δ : Type} (f : β → γ → δ) (g : β → γ) (l : List β) :
+    List.zipWith f l (l.map g) = l.map (fun a => f a (g a)) := by
+  induction l with
+  | nil => rfl
+  | cons x t ih => simp [ih]
+
+/-- Column marginal `p_Y(k)`. -/
+def colSum (P : List (List ℝ)) (k : Nat) : ℝ := (P.map (fun row => row.getD k 0)).sum
+
+/-- Entry `(j, k)` of the companion matrix. -/
+noncomputable def ccEntry (P : List (List ℝ)) (j k : Nat) : ℝ :=
+  (P.map (fun row => if row.sum = 0 ∨ colSum P k = 0 then 0
+    else row.getD j 0 * row.getD k 0 / (row.sum * colSum P k))).sum
+
+theorem getD_map_range (n : Nat) (F : Nat → ℝ) (k : Nat) (hk : k < n) :
+    ((List.range n).map F).getD k 0 = F k := by
+  rw [List.getD_eq_getElem?_getD, List.getElem?_eq_getElem (by simpa using hk)]
+  simp
+
+theorem maxcorrCompanion_eq (P : List (List ℝ)) :
+    maxcorrCompanion P
+      = (List.range (P.head?.getD []).length).map (fun j =>
+          (List.range (P.head?.getD []).length).map (fun k => ccEntry P j k)) := by
+  unfold maxcorrCompanion
+  apply List.map_congr_left
+  intro j _
+  apply List.map_congr_left
+  intro k hk
+  have hk' : k < (P.head?.getD []).length := List.mem_range.mp hk
+  rw [lsum_eq_sum, zipWith_map_self, getD_map_range _ _ k hk']
+  unfold ccEntry colSum
+  apply congrArg
+  apply List.map_congr_left
+  intro row _
+  simp only [lsum_eq_sum, Bool.or_eq_true, beq_iff_eq]
+
+theorem sum_eq_zero_forall (row : List ℝ) (hnn : ∀ x ∈ row, 0 ≤ x) (h : row.sum = 0) :
+    ∀ x ∈ row, x = 0 := by
+  have := (sum_map_eq_zero_iff row id (fun x hx => hnn x hx)).mp (by simpa using h)
+  exact this
+
+theorem getD_eq_zero_of_sum (row : List ℝ) (hnn : ∀ x ∈ row, 0 ≤ x) (h : row.sum = 0) (k : Nat) :
+    row.getD k 0 = 0 := by
+  rw [List.getD_eq_getElem?_getD]
+  by_cases hk : k < row.length
+  · rw [List.getElem?_eq_getElem hk]
+    exact sum_eq_zero_forall row hnn h _ (List.getElem_mem hk)
+  · rw [List.getElem?_eq_none (by omega)]; rfl
+
+/-- The columns of the companion matrix sum to one: the all-ones row vector is a left
+eigenvector for the eigenvalue 1. -/
+theorem ccEntry_col_sum (P : List (List ℝ)) (n : Nat) (hlen : ∀ row ∈ P, row.length = n)
+    (hnn : ∀ row ∈ P, ∀ x ∈ row, 0 ≤ x) (k : Nat) (hk : colSum P k ≠ 0) :
+    ((List.range n).map (fun j => ccEntry P j k)).sum = 1 := by
+  unfold ccEntry
+  rw [sum_comm]
+  have : ∀ row ∈ P, ((List.range n).map (fun j => if row.sum = 0 ∨ colSum P k = 0 then 0
+      else row.getD j 0 * row.getD k 0 / (row.sum * colSum P k))).sum
+        = row.getD k 0 * (colSum P k)⁻¹ := by
+    intro row hrow
+    by_cases h0 : row.sum = 0
+    · rw [getD_eq_zero_of_sum row (hnn row hrow) h0 k]
+      simp [h0]
+    · simp only [h0, hk, or_self, if_false]
+      have e : ∀ j ∈ List.range n, row.getD j 0 * row.getD k 0 / (row.sum * colSum P k)
+          = row.getD j 0 * (row.getD k 0 / (row.sum * colSum P k)) := by
+        intro j _; ring
+      rw [List.map_congr_left e, sum_map_mul_right]
+      have := sum_map_eq_range row n (hlen row hrow) id
+      simp only [id] at this
+      rw [List.map_id] at this
+      rw [← this]
+      field_simp
+  rw [List.map_congr_left this, sum_map_mul_right]
+  exact mul_inv_cancel₀ hk
+
+theorem maxcorr_cols_sum_one (P : List (List ℝ)) (hlen : ∀ row ∈ P, row.length = (P.head?.getD []).length)
+    (hnn : ∀ row ∈ P, ∀ x ∈ row, 0 ≤ x) (k : Nat) (hk : k < (P.head?.getD []).length)
+    (hk0 : colSum P k ≠ 0) :
+    ((maxcorrCompanion P).map (fun row => row.getD k 0)).sum = 1 := by
+  rw [maxcorrCompanion_eq, List.map_map]
+  rw [← ccEntry_col_sum P _ hlen hnn k hk0]
+  apply congrArg
+  apply List.map_congr_left
+  intro j _
+  simp only [Function.comp_apply]
+  exact getD_map_range _ _ k hk
+
+/-- Independent variables: the joint pmf is the outer product of its marginals. -/
+def outer (a b : List ℝ) : List (List ℝ) := a.map (fun ai => b.map (fun bj => ai * bj))
+
+theorem colSum_outer (a b : List ℝ) (k : Nat) :
+    colSum (outer a b) k = a.sum * b.getD k 0 := by
+  unfold colSum outer
+  rw [List.map_map]
+  conv_rhs => rw [← List.map_id a]
+  rw [← sum_map_mul_right]
+  apply congrArg
+  apply List.map_congr_left
+  intro ai _
+  simp only [Function.comp_apply, id]
+  rw [List.getD_eq_getElem?_getD, List.getD_eq_getElem?_getD, List.getElem?_map]
+  cases b[k]? <;> simp
+
+theorem getD_map_mul (ai : ℝ) (b : List ℝ) (k : Nat) :
+    (b.map (fun bj => ai * bj)).getD k 0 = ai * b.getD k 0 := by
+  rw [List.getD_eq_getElem?_getD, List.getD_eq_getElem?_getD, List.getElem?_map]
+  cases b[k]? <;> simp
+
+theorem ccEntry_outer (a b : List ℝ) (ha : a.sum = 1) (hb : b.sum = 1) (j k : Nat)
+    (hk : b.getD k 0 ≠ 0) : ccEntry (outer a b) j k = b.getD j 0 := by
+  unfold ccEntry
+  rw [colSum_outer, ha, one_mul]
+  unfold outer
+  rw [List.map_map]
+  have : ∀ ai ∈ a, ((fun row : List ℝ => if row.sum = 0 ∨ b.getD k 0 = 0 then 0
+      else row.getD j 0 * row.getD k 0 / (row.sum * b.getD k 0)) ∘ fun ai => b.map (fun bj => ai * bj)) ai
+        = ai * b.getD j 0 := by
+    intro ai _
+    simp only [Function.comp_apply]
+    rw [sum_map_mul_left, List.map_id', hb, mul_one, getD_map_mul, getD_map_mul]
+    by_cases h0 : ai = 0
+    · simp [h0]
+    · simp only [h0, hk, or_self, if_false]
+      field_simp
+  rw [List.map_congr_left this, sum_map_mul_right]
+  have e : (a.map (fun x => x)).sum = 1 := by rw [List.map_id']; exact ha
+  rw [e, one_mul]
+
+theorem head_outer (a b : List ℝ) (hne : a ≠ []) : ((outer a b).head?.getD []).length = b.length := by
+  cases a with
+  | nil => exact absurd rfl hne
+  | cons x t => simp [outer]
+
+/-- For independent variables the companion matrix has constant rows `A[j][k] = b_j`: it has
+rank one, and its only non-zero eigenvalue is `Σ_j b_j = 1`. -/
+theorem maxcorrCompanion_outer (a b : List ℝ) (hne : a ≠ []) (ha : a.sum = 1) (hb : b.sum = 1)
+    (hb0 : ∀ x ∈ b, x ≠ 0) :
+    maxcorrCompanion (outer a b) = b.map (fun bj => b.map (fun _ => bj)) := by
+  rw [maxcorrCompanion_eq, head_outer a b hne]
+  have hk : ∀ k, k < b.length → b.getD k 0 ≠ 0 := by
+    intro k hk
+    rw [List.getD_eq_getElem?_getD, List.getElem?_eq_getElem hk]
+    exact hb0 _ (List.getElem_mem hk)
+  have inner : ∀ j, (List.range b.length).map (fun k => ccEntry (outer a b) j k)
+      = b.map (fun _ => b.getD j 0) := by
+    intro j
+    rw [List.map_const', List.map_congr_left (g := fun _ => b.getD j 0)
+      (fun k hk' => ccEntry_outer a b ha hb j k (hk k (List.mem_range.mp hk')))]
+    rw [List.map_const', List.length_range]
+  simp only [inner]
+  conv_rhs => rw [list_eq_range_getD b]
+  rw [List.map_map]
+  apply List.map_congr_left
+  intro j _
+  simp only [Function.comp_apply]
+  rw [← list_eq_range_getD b]
+
+end MaxCorr
+
+/-! ### Earth mover's distance: weak duality and the categorical metric -/
+
+section EMD
+
+/-- The `n × m` matrix (list of rows) of a function of the indices. -/
+def mat (n m : Nat) (D : Nat → Nat → ℝ) : List (List ℝ) :=
+  (List.range n).map (fun i => (List.range m).map (fun j => D i j))
+
+/-- Every rectangular list-of-rows matrix is the matrix of its entry function. -/
+theorem mat_getD (M : List (List ℝ)) (n m : Nat) (hlen : M.length = n)
+    (hrow : ∀ row ∈ M, row.length = m) :
+    M = mat n m (fun i j => (M.getD i []).getD j 0) := by
+  unfold mat
+  apply List.ext_getElem
+  · simp [hlen]
+  · intro i h1 h2
+    have hr : (M[i]).length = m := hrow _ (List.getElem_mem h1)
+    simp only [List.getElem_map, List.getElem_range]
+    have e : M.getD i [] = M[i] := by
+      rw [List.getD_eq_getElem?_getD, List.getElem?_eq_getElem h1]; rfl
+    rw [e]
+    conv_lhs => rw [list_eq_range_getD M[i], hr]
+
+/-- Sum over `i < n`. -/
+def rsum (n : Nat) (f : Nat → ℝ) : ℝ := ((List.range n).map f).sum
+
+theorem rsum_le (n : Nat) (f g : Nat → ℝ) (h : ∀ i, i < n → f i ≤ g i) : rsum n f ≤ rsum n g :=
+  sum_map_le _ _ _ (fun i hi => h i (List.mem_range.mp hi))
+
+theorem rsum_congr (n : Nat) (f g : Nat → ℝ) (h : ∀ i, i < n → f i = g i) : rsum n f = rsum n g := by
+  unfold rsum
+  rw [List.map_congr_left (fun i hi => h i (List.mem_range.mp hi))]
+
+theorem rsum_comm (n m : Nat) (f : Nat → Nat → ℝ) :
+    rsum n (fun i => rsum m (fun j => f i j)) = rsum m (fun j => rsum n (fun i => f i j)) :=
+  sum_comm _ _ _
+
+theorem rsum_add (n : Nat) (f g : Nat → ℝ) :
+    rsum n (fun i => f i + g i) = rsum n f + rsum n g := sum_map_add _ _ _
+
+theorem rsum_sub (n : Nat) (f g : Nat → ℝ) :
+    rsum n (fun i => f i - g i) = rsum n f - rsum n g := sum_map_sub _ _ _
+
+theorem rsum_mul_left (n : Nat) (c : ℝ) (f : Nat → ℝ) :
+    rsum n (fun i => c * f i) = c * rsum n f := sum_map_mul_left _ _ _
+
+theorem rsum_mul_right (n : Nat) (c : ℝ) (f : Nat → ℝ) :
+    rsum n (fun i => f i * c) = rsum n f * c := sum_map_mul_right _ _ _
+
+theorem rsum_nonneg (n : Nat) (f : Nat → ℝ) (h : ∀ i, i < n → 0 ≤ f i) : 0 ≤ rsum n f :=
+  sum_map_nonneg _ _ (fun i hi => h i (List.mem_range.mp hi))
+
+theorem zipWith_map_map {β γ δ ε : Type} (f : γ → δ → ε) (g : β → γ) (h : β → δ) (l : List β) :
+    List.zipWith f (l.map g) (l.map h) = l.map (fun a => f (g a) (h a)) := by
+  rw [List.zipWith_map, List.zipWith_self]
+
+/-- The cost of a plan is `Σ_i Σ_j D(i,j) π(i,j)`. -/
+theorem planCost_mat (n m : Nat) (D π : Nat → Nat → ℝ) :
+    planCost (mat n m D) (mat n m π) = rsum n (fun i => rsum m (fun j => D i j * π i j)) := by
+  unfold planCost mat rsum
+  rw [lsum_eq_sum, zipWith_map_map]
+  apply congrArg
+  apply List.map_congr_left
+  intro i _
+  rw [lsum_eq_sum, zipWith_map_map]
+
+/-- **Weak duality** for the transport problem. -/
+theorem emd_weak_duality (n m : Nat) (D π : Nat → Nat → ℝ) (p q f g : Nat → ℝ)
+    (hπ : ∀ i j, i < n → j < m → 0 ≤ π i j)
+    (hrow : ∀ i, i < n → rsum m (fun j => π i j) = p i)
+    (hcol : ∀ j, j < m → rsum n (fun i => π i j) = q j)
+    (hfg : ∀ i j, i < n → j < m → f i + g j ≤ D i j) :
+    rsum n (fun i => f i * p i) + rsum m (fun j => g j * q j)
+      ≤ planCost (mat n m D) (mat n m π) := by
+  rw [planCost_mat]
+  have e1 : rsum n (fun i => f i * p i) = rsum n (fun i => rsum m (fun j => f i * π i j)) := by
+    apply rsum_congr
+    intro i hi
+    rw [rsum_mul_left, hrow i hi]
+  have e2 : rsum m (fun j => g j * q j) = rsum n (fun i => rsum m (fun j => g j * π i j)) := by
+    rw [rsum_comm]
+    apply rsum_congr
+    intro j hj
+    rw [rsum_mul_left, hcol j hj]
+  rw [e1, e2, ← rsum_add]
+  apply rsum_le
+  intro i hi
+  rw [← rsum_add]
+  apply rsum_le
+  intro j hj
+  have := mul_le_mul_of_nonneg_right (hfg i j hi hj) (hπ i j hi hj)
+  linarith
+
+/-- The positive part `(p − q)⁺`. -/
+noncomputable def pos (x : ℝ) : ℝ := if 0 < x then x else 0
+
+theorem pos_nonneg (x : ℝ) : 0 ≤ pos x := by
+  unfold pos; split <;> linarith
+
+theorem abs_eq_pos (x : ℝ) : |x| = 2 * pos x - x := by
+  unfold pos
+  split
+  · rename_i h; rw [abs_of_pos h]; ring
+  · rename_i h; rw [abs_of_nonpos (not_lt.mp h)]; ring
+
+theorem pos_sub_pos_neg (x : ℝ) : pos x - pos (-x) = x := by
+  unfold pos
+  by_cases h1 : 0 < x
+  · have h2 : ¬ 0 < -x := by linarith
+    simp [h1, h2]
+  · by_cases h2 : 0 < -x
+    · simp [h1, h2]
+    · have : x = 0 := by linarith
+      simp [this]
+
+theorem pos_mul_pos_neg (x : ℝ) : pos x * pos (-x) = 0 := by
+  unfold pos
+  by_cases h1 : 0 < x
+  · have h2 : ¬ 0 < -x := by linarith
+    simp [h2]
+  · simp [h1]
+
+theorem tvVals_range (n : Nat) (p q : Nat → ℝ) :
+    tvVals 2 ((List.range n).map (fun i => (p i, q i)))
+      = rsum n (fun i => pos (p i - q i)) - (rsum n p - rsum n q) / 2 := by
+  rw [tvVals_eq, List.map_map]
+  have : ((List.range n).map ((fun r : ℝ × ℝ => |r.1 - r.2|) ∘ fun i => (p i, q i))).sum
+      = rsum n (fun i => 2 * pos (p i - q i) - (p i - q i)) := by
+    unfold rsum
+    apply congrArg
+    apply List.map_congr_left
+    intro i _
+    simp only [Function.comp_apply]
+    exact abs_eq_pos _
+  rw [this, rsum_sub, rsum_mul_left, rsum_sub]; ring
+
+/-- Lower bound for the categorical metric: every feasible plan costs at least the variational
+distance. -/
+theorem emd_categorical_lower (n : Nat) (π : Nat → Nat → ℝ) (p q : Nat → ℝ)
+    (hπ : ∀ i j, i < n → j < n → 0 ≤ π i j)
+    (hrow : ∀ i, i < n → rsum n (fun j => π i j) = p i)
+    (hcol : ∀ j, j < n → rsum n (fun i => π i j) = q j) :
+    tvVals 2 ((List.range n).map (fun i => (p i, q i)))
+      ≤ planCost (mat n n (fun i j => if i = j then 0 else 1)) (mat n n π) := by
+  have hsum : rsum n p = rsum n q := by
+    rw [← rsum_congr n _ _ hrow, ← rsum_congr n _ _ hcol, rsum_comm]
+  have hdual := emd_weak_duality n n (fun i j => if i = j then 0 else 1) π p q
+    (fun i => if q i < p i then 1 else 0) (fun j => -(if q j < p j then 1 else 0))
+    hπ hrow hcol (by
+      intro i j _ _
+      by_cases hij : i = j
+      · subst hij; simp
+      · simp only [hij, if_false]
+        split <;> split <;> norm_num)
+  refine le_trans (le_of_eq ?_) hdual
+  rw [tvVals_range, hsum, sub_self, zero_div, sub_zero, ← rsum_add]
+  apply rsum_congr
+  intro i _
+  unfold pos
+  by_cases h : q i < p i
+  · have h' : 0 < p i - q i := by linarith
+    simp only [h, h', if_true]; ring
+  · have h' : ¬ 0 < p i - q i := by linarith
+    simp only [h, h', if_false]; ring
+
+/-- The explicit optimal plan for the categorical metric: keep `min(p_i, q_i)` in place and move
+the excess `(p_i − q_i)⁺` to the deficits `(q_j − p_j)⁺` proportionally. -/
+noncomputable def catPlan (n : Nat) (p q : Nat → ℝ) (i j : Nat) : ℝ :=
+  (if i = j then min (p i) (q i) else 0)
+    + pos (p i - q i) * pos (q j - p j) / rsum n (fun k => pos (p k - q k))
+
+theorem rsum_ite_eq (n : Nat) (i : Nat) (hi : i < n) (c : ℝ) :
+    rsum n (fun j => if i = j then c else 0) = c := by
+  unfold rsum
+  induction n with
+  | zero => omega
+  | succ n ih =>
+    rw [List.range_succ, List.map_append, List.sum_append]
+    by_cases h : i = n
+    · subst h
+      have : (List.range i).map (fun j => if i = j then c else 0)
+          = (List.range i).map (fun _ => (0 : ℝ)) := by
+        apply List.map_congr_left
+        intro j hj
+        have : i ≠ j := by have := List.mem_range.mp hj; omega
+        simp [this]
+      rw [this, sum_map_zero]; simp
+    · rw [ih (by omega)]; simp [h]
+
+theorem rsum_ite_eq' (n : Nat) (j : Nat) (hj : j < n) (c : Nat → ℝ) :
+    rsum n (fun i => if i = j then c i else 0) = c j := by
+  have : rsum n (fun i => if i = j then c i else 0) = rsum n (fun i => if j = i then c j else 0) := by
+    apply rsum_congr
+    intro i _
+    by_cases h : i = j
+    · subst h; simp
+    · have h' : ¬ j = i := fun e => h e.symm
+      simp [h, h']
+  rw [this, rsum_ite_eq n j hj]
+
+theorem min_add_pos (a b : ℝ) : min a b + pos (a - b) = a := by
+  unfold pos
+  by_cases h : 0 < a - b
+  · rw [if_pos h, min_eq_right (by linarith)]; ring
+  · rw [if_neg h, min_eq_left (by linarith)]; ring
+
+theorem rsum_pos_swap (n : Nat) (p q : Nat → ℝ) (hs : rsum n p = rsum n q) :
+    rsum n (fun k => pos (q k - p k)) = rsum n (fun k => pos (p k - q k)) := by
+  have : rsum n (fun k => pos (p k - q k) - pos (q k - p k)) = rsum n (fun k => p k - q k) := by
+    apply rsum_congr
+    intro k _
+    have := pos_sub_pos_neg (p k - q k)
+    rw [neg_sub] at this
+    exact this
+  rw [rsum_sub, rsum_sub] at this
+  linarith
+
+theorem catPlan_nonneg (n : Nat) (p q : Nat → ℝ) (hp : ∀ i, i < n → 0 ≤ p i)
+    (hq : ∀ i, i < n → 0 ≤ q i) (i j : Nat) (hi : i < n) : 0 ≤ catPlan n p q i j := by
+  unfold catPlan
+  apply add_nonneg
+  · split
+    · exact le_min (hp i hi) (hq i hi)
+    · exact le_rfl
+  · exact div_nonneg (mul_nonneg (pos_nonneg _) (pos_nonneg _))
+      (rsum_nonneg _ _ (fun k _ => pos_nonneg _))
+
+theorem mul_div_self_of (x T : ℝ) (h : T = 0 → x = 0) : x * T / T = x := by
+  by_cases hT : T = 0
+  · rw [h hT]; simp
+  · field_simp
+
+theorem pos_eq_zero_of_rsum (n : Nat) (f : Nat → ℝ) (h : rsum n (fun k => pos (f k)) = 0)
+    (i : Nat) (hi : i < n) : pos (f i) = 0 :=
+  (sum_map_eq_zero_iff (List.range n) (fun k => pos (f k)) (fun _ _ => pos_nonneg _)).mp h i
+    (List.mem_range.mpr hi)
+
+theorem rsum_mul_div (n : Nat) (a T : ℝ) (f : Nat → ℝ) :
+    rsum n (fun j => a * f j / T) = a * rsum n f / T := by
+  have : ∀ j, j < n → a * f j / T = (a / T) * f j := by intro j _; ring
+  rw [rsum_congr n _ _ this, rsum_mul_left]; ring
+
+theorem catPlan_row (n : Nat) (p q : Nat → ℝ) (hs : rsum n p = rsum n q) (i : Nat) (hi : i < n) :
+    rsum n (fun j => catPlan n p q i j) = p i := by
+  unfold catPlan
+  rw [rsum_add, rsum_ite_eq n i hi, rsum_mul_div, rsum_pos_swap n p q hs,
+    mul_div_self_of _ _ (fun hT => pos_eq_zero_of_rsum n (fun k => p k - q k) hT i hi)]
+  exact min_add_pos _ _
+
+theorem catPlan_col (n : Nat) (p q : Nat → ℝ) (hs : rsum n p = rsum n q) (j : Nat) (hj : j < n) :
+    rsum n (fun i => catPlan n p q i j) = q j := by
+  unfold catPlan
+  rw [rsum_add, rsum_ite_eq' n j hj (fun i => min (p i) (q i))]
+  have : ∀ i, i < n → pos (p i - q i) * pos (q j - p j) / rsum n (fun k => pos (p k - q k))
+      = pos (q j - p j) * pos (p i - q i) / rsum n (fun k => pos (p k - q k)) := by
+    intro i _; ring
+  rw [rsum_congr n _ _ this, rsum_mul_div,
+    mul_div_self_of _ _ (fun hT => pos_eq_zero_of_rsum n (fun k => q k - p k)
+      (by rw [rsum_pos_swap n p q hs]; exact hT) j hj), min_comm]
+  exact min_add_pos _ _
+
+/-- The explicit plan costs exactly the variational distance. -/
+theorem catPlan_cost (n : Nat) (p q : Nat → ℝ) (hs : rsum n p = rsum n q) :
+    planCost (mat n n (fun i j => if i = j then 0 else 1)) (mat n n (catPlan n p q))
+      = tvVals 2 ((List.range n).map (fun i => (p i, q i))) := by
+  rw [planCost_mat, tvVals_range, hs, sub_self, zero_div, sub_zero]
+  apply rsum_congr
+  intro i hi
+  have : ∀ j, j < n → (if i = j then (0 : ℝ) else 1) * catPlan n p q i j
+      = pos (p i - q i) * pos (q j - p j) / rsum n (fun k => pos (p k - q k))
+        - (if i = j then pos (p i - q i) * pos (q i - p i) / rsum n (fun k => pos (p k - q k))
+            else 0) := by
+    intro j _
+    unfold catPlan
+    by_cases h : i = j
+    · subst h; simp
+    · simp [h]
+  rw [rsum_congr n _ _ this, rsum_sub, rsum_ite_eq n i hi, rsum_mul_div,
+    rsum_pos_swap n p q hs,
+    mul_div_self_of _ _ (fun hT => pos_eq_zero_of_rsum n (fun k => p k - q k) hT i hi)]
+  have := pos_mul_pos_neg (p i - q i)
+  rw [neg_sub] at this
+  rw [this, zero_div, sub_zero]
+
+end EMD
+
+/-! ### Spectral facts about the companion matrix -/
+
+section Spectral
+
+theorem abs_sum_map_le {β : Type} (l : List β) (f : β → ℝ) :
+    |(l.map f).sum| ≤ (l.map (fun x => |f x|)).sum := by
+  induction l with
+  | nil => simp
+  | cons x t ih =>
+    simp only [List.map_cons, List.sum_cons]
+    exact (abs_add_le _ _).trans (by linarith)
+
+theorem ccEntry_nonneg (P : List (List ℝ)) (hnn : ∀ row ∈ P, ∀ x ∈ row, 0 ≤ x) (j k : Nat) :
+    0 ≤ ccEntry P j k := by
+  unfold ccEntry
+  apply sum_map_nonneg
+  intro row hrow
+  have hg : ∀ i, 0 ≤ row.getD i 0 := by
+    intro i
+    rw [List.getD_eq_getElem?_getD]
+    by_cases hi : i < row.length
+    · rw [List.getElem?_eq_getElem hi]; exact hnn row hrow _ (List.getElem_mem hi)
+    · rw [List.getElem?_eq_none (by omega)]; exact le_rfl
+  split
+  · exact le_rfl
+  · apply div_nonneg (mul_nonneg (hg j) (hg k))
+    apply mul_nonneg
+    · have := sum_map_nonneg row id (fun x hx => hnn row hrow x hx)
+      simpa using this
+    · unfold colSum
+      apply sum_map_nonneg
+      intro row' hrow'
+      rw [List.getD_eq_getElem?_getD]
+      by_cases hi : k < row'.length
+      · rw [List.getElem?_eq_getElem hi]; exact hnn row' hrow' _ (List.getElem_mem hi)
+      · rw [List.getElem?_eq_none (by omega)]; exact le_rfl
+
+theorem ccEntry_col_sum_le (P : List (List ℝ)) (n : Nat) (hlen : ∀ row ∈ P, row.length = n)
+    (hnn : ∀ row ∈ P, ∀ x ∈ row, 0 ≤ x) (k : Nat) :
+    rsum n (fun j => ccEntry P j k) ≤ 1 := by
+  by_cases hk : colSum P k = 0
+  · have : rsum n (fun j => ccEntry P j k) = rsum n (fun _ => 0) := by
+      apply rsum_congr
+      intro j _
+      unfold ccEntry
+      rw [← sum_map_zero P]
+      apply congrArg
+      apply List.map_congr_left
+      intro row _
+      simp [hk]
+    rw [this]
+    unfold rsum
+    rw [sum_map_zero]; exact zero_le_one
+  · exact le_of_eq (ccEntry_col_sum P n hlen hnn k hk)
+
+/-- Every real eigenvalue of the companion matrix has modulus at most one (the matrix is
+non-negative with column sums at most one). -/
+theorem cc_eigen_abs_le_one (P : List (List ℝ)) (n : Nat) (hlen : ∀ row ∈ P, row.length = n)
+    (hnn : ∀ row ∈ P, ∀ x ∈ row, 0 ≤ x) (v : Nat → ℝ) (lam : ℝ)
+    (hv : ∃ j, j < n ∧ v j ≠ 0)
+    (heig : ∀ j, j < n → rsum n (fun k => ccEntry P j k * v k) = lam * v j) :
+    |lam| ≤ 1 := by
+  have hS : 0 < rsum n (fun j => |v j|) := by
+    obtain ⟨j, hj, hvj⟩ := hv
+    have := single_le_sum_map (List.range n) (fun j => |v j|) (fun _ _ => abs_nonneg _) j
+      (List.mem_range.mpr hj)
+    exact lt_of_lt_of_le (abs_pos.mpr hvj) this
+  have h1 : |lam| * rsum n (fun j => |v j|)
+      ≤ rsum n (fun j => rsum n (fun k => ccEntry P j k * |v k|)) := by
+    rw [← rsum_mul_left]
+    apply rsum_le
+    intro j hj
+    rw [← abs_mul, ← heig j hj]
+    refine (abs_sum_map_le _ _).trans (le_of_eq ?_)
+    apply rsum_congr
+    intro k _
+    rw [abs_mul, abs_of_nonneg (ccEntry_nonneg P hnn j k)]
+  have h2 : rsum n (fun j => rsum n (fun k => ccEntry P j k * |v k|))
+      ≤ rsum n (fun k => |v k|) := by
+    rw [rsum_comm]
+    apply rsum_le
+    intro k _
+    rw [rsum_mul_right]
+    have := mul_le_mul_of_nonneg_right (ccEntry_col_sum_le P n hlen hnn k) (abs_nonneg (v k))
+    linarith
+  have h3 := h1.trans h2
+  by_contra hc
+  rw [not_le] at hc
+  have := mul_lt_mul_of_pos_right hc hS
+  linarith
+
+/-- A matrix with constant rows `A[j][k] = b_j`, `Σ b = 1`, has `1` as its only non-zero
+eigenvalue. -/
+theorem rank_one_eigen (n : Nat) (b v : Nat → ℝ) (lam : ℝ) (hb : rsum n b = 1)
+    (hv : ∃ j, j < n ∧ v j ≠ 0) (hlam : lam ≠ 0)
+    (heig : ∀ j, j < n → rsum n (fun k => b j * v k) = lam * v j) : lam = 1 := by
+  have h1 : ∀ j, j < n → b j * rsum n v = lam * v j := by
+    intro j hj
+    rw [← heig j hj, rsum_mul_left]
+  have h2 : rsum n v = lam * rsum n v := by
+    rw [← rsum_mul_left, ← rsum_congr n _ _ h1, rsum_mul_right, hb, one_mul]
+  by_cases hs : rsum n v = 0
+  · obtain ⟨j, hj, hvj⟩ := hv
+    have := h1 j hj
+    rw [hs, mul_zero] at this
+    rcases mul_eq_zero.mp this.symm with h | h
+    · exact absurd h hlam
+    · exact absurd h hvj
+  · have : (lam - 1) * rsum n v = 0 := by linarith
+    rcases mul_eq_zero.mp this with h | h
+    · linarith
+    · exact absurd h hs
+
+theorem maxcorrCompanion_getD (P : List (List ℝ)) (j k : Nat)
+    (hj : j < (P.head?.getD []).length) (hk : k < (P.head?.getD []).length) :
+    ((maxcorrCompanion P).getD j []).getD k 0 = ccEntry P j k := by
+  rw [maxcorrCompanion_eq]
+  have : ((List.range (P.head?.getD []).length).map (fun j =>
+      (List.range (P.head?.getD []).length).map (fun k => ccEntry P j k))).getD j []
+      = (List.range (P.head?.getD []).length).map (fun k => ccEntry P j k) := by
+    rw [List.getD_eq_getElem?_getD, List.getElem?_eq_getElem (by simpa using hj)]
+    simp
+  rw [this, getD_map_range _ _ k hk]
+
+end Spectral
+
+/-! ### Pinsker's inequality -/
+
+section Pinsker
+
+noncomputable def pinG (t : ℝ) : ℝ :=
+  4 * (t * Real.log t) + 2 * (t ^ 2 * Real.log t) - 5 * t ^ 2 + 4 * t + 1
+noncomputable def pinG1 (t : ℝ) : ℝ := 4 * Real.log t + 4 * (t * Real.log t) + 8 - 8 * t
+noncomputable def pinG2 (t : ℝ) : ℝ := 4 / t + 4 * Real.log t - 4
+
+theorem hasDerivAt_G (t : ℝ) (ht : t ≠ 0) : HasDerivAt pinG (pinG1 t) t := by
+  have hlog := Real.hasDerivAt_log ht
+  have hid := hasDerivAt_id t
+  have h1 := hid.mul hlog
+  have h2 := (hasDerivAt_pow 2 t).mul hlog
+  have := ((((h1.const_mul 4).add (h2.const_mul 2)).sub ((hasDerivAt_pow 2 t).const_mul 5)).add
+    (hid.const_mul 4)).add_const 1
+  have e : HasDerivAt pinG _ t := this
+  exact e.congr_deriv (by unfold pinG1; simp only [id]; field_simp; ring)
+
+theorem hasDerivAt_G1 (t : ℝ) (ht : t ≠ 0) : HasDerivAt pinG1 (pinG2 t) t := by
+  have hlog := Real.hasDerivAt_log ht
+  have hid := hasDerivAt_id t
+  have h1 := hid.mul hlog
+  have := (((hlog.const_mul 4).add (h1.const_mul 4)).add_const 8).sub (hid.const_mul 8)
+  have e : HasDerivAt pinG1 _ t := this
+  exact e.congr_deriv (by unfold pinG2; simp only [id]; field_simp; ring)
+
+
+theorem G2_nonneg (t : ℝ) (ht : 0 < t) : 0 ≤ pinG2 t := by
+  unfold pinG2
+  have := Real.one_sub_inv_le_log_of_pos ht
+  rw [div_eq_mul_inv]; linarith
+
+theorem G1_one : pinG1 1 = 0 := by unfold pinG1; simp
+
+theorem G_one : pinG 1 = 0 := by unfold pinG; simp; norm_num
+
+theorem G1_monotoneOn : MonotoneOn pinG1 (Set.Ioi 0) := by
+  apply monotoneOn_of_deriv_nonneg (convex_Ioi 0)
+  · exact fun x hx => (hasDerivAt_G1 x (ne_of_gt hx)).continuousAt.continuousWithinAt
+  · rw [interior_Ioi]
+    exact fun x hx => (hasDerivAt_G1 x (ne_of_gt hx)).differentiableAt.differentiableWithinAt
+  · rw [interior_Ioi]
+    intro x hx
+    rw [(hasDerivAt_G1 x (ne_of_gt hx)).deriv]
+    exact G2_nonneg x hx
+
+theorem G_nonneg_of_pos (t : ℝ) (ht : 0 < t) : 0 ≤ pinG t := by
+  rcases le_total t 1 with h1 | h1
+  · have hanti : AntitoneOn pinG (Set.Ioc 0 1) := by
+      apply antitoneOn_of_deriv_nonpos (convex_Ioc 0 1)
+      · exact fun x hx => (hasDerivAt_G x (ne_of_gt hx.1)).continuousAt.continuousWithinAt
+      · rw [interior_Ioc]
+        exact fun x hx => (hasDerivAt_G x (ne_of_gt hx.1)).differentiableAt.differentiableWithinAt
+      · rw [interior_Ioc]
+        intro x hx
+        rw [(hasDerivAt_G x (ne_of_gt hx.1)).deriv, ← G1_one]
+        exact G1_monotoneOn hx.1 (by norm_num : (1:ℝ) ∈ Set.Ioi 0) hx.2.le
+    have := hanti ⟨ht, h1⟩ ⟨by norm_num, le_rfl⟩ h1
+    rwa [G_one] at this
+  · have hmono : MonotoneOn pinG (Set.Ici 1) := by
+      apply monotoneOn_of_deriv_nonneg (convex_Ici 1)
+      · exact fun x hx => (hasDerivAt_G x (by have : (1:ℝ) ≤ x := hx; linarith)).continuousAt.continuousWithinAt
+      · rw [interior_Ici]
+        exact fun x hx => (hasDerivAt_G x (by have : (1:ℝ) < x := hx; linarith)).differentiableAt.differentiableWithinAt
+      · rw [interior_Ici]
+        intro x hx
+        have hx' : (1:ℝ) < x := hx
+        rw [(hasDerivAt_G x (by linarith)).deriv, ← G1_one]
+        exact G1_monotoneOn (by norm_num : (1:ℝ) ∈ Set.Ioi 0) (by show (0:ℝ) < x; linarith) hx'.le
+    have := hmono (show (1:ℝ) ∈ Set.Ici 1 from le_refl (1:ℝ)) (show t ∈ Set.Ici 1 from h1) h1
+    rwa [G_one] at this
+
+/-- `3 (p − q)² ≤ (4q + 2p) (p ln(p/q) − p + q)`. -/
+theorem pinsker_term (p q : ℝ) (hp : 0 ≤ p) (hq : 0 < q) :
+    3 * (p - q) ^ 2 ≤ (4 * q + 2 * p) * (p * Real.log (p / q) - p + q) := by
+  rcases hp.eq_or_lt with h0 | hpos
+  · rw [← h0]; simp; nlinarith
+  · have hG := G_nonneg_of_pos (p / q) (div_pos hpos hq)
+    unfold pinG at hG
+    have hq2 : 0 < q ^ 2 := by positivity
+    have := mul_nonneg hq2.le hG
+    have e : q ^ 2 * (4 * (p / q * Real.log (p / q)) + 2 * ((p / q) ^ 2 * Real.log (p / q))
+        - 5 * (p / q) ^ 2 + 4 * (p / q) + 1)
+        = (4 * q + 2 * p) * (p * Real.log (p / q) - p + q) - 3 * (p - q) ^ 2 := by
+      field_simp; ring
+    rw [e] at this
+    linarith
+
+theorem cs_step (u X a A b B : ℝ) (hu : 0 ≤ u) (hX : 0 ≤ X) (ha : 0 ≤ a) (hA : 0 ≤ A)
+    (hb : 0 ≤ b) (hB : 0 ≤ B) (h1 : u ^ 2 ≤ a * b) (h2 : X ^ 2 ≤ A * B) :
+    (u + X) ^ 2 ≤ (a + A) * (b + B) := by
+  have h3 : (u * X) ^ 2 ≤ ((a * B + A * b) / 2) ^ 2 := by
+    have := mul_le_mul h1 h2 (sq_nonneg X) (mul_nonneg ha hb)
+    nlinarith [sq_nonneg (a * B - A * b)]
+  have h4 : u * X ≤ (a * B + A * b) / 2 :=
+    (sq_le_sq₀ (mul_nonneg hu hX) (by positivity)).mp h3
+  nlinarith
+
+theorem cs_list {β : Type} (l : List β) (x a b : β → ℝ) (ha : ∀ r ∈ l, 0 ≤ a r)
+    (hb : ∀ r ∈ l, 0 ≤ b r) (h : ∀ r ∈ l, (x r) ^ 2 ≤ a r * b r) :
+    ((l.map (fun r => |x r|)).sum) ^ 2 ≤ (l.map a).sum * (l.map b).sum := by
+  induction l with
+  | nil => simp
+  | cons r t ih =>
+    have ha' : ∀ r ∈ t, 0 ≤ a r := fun s hs => ha s (List.mem_cons_of_mem _ hs)
+    have hb' : ∀ r ∈ t, 0 ≤ b r := fun s hs => hb s (List.mem_cons_of_mem _ hs)
+    have ih' := ih ha' hb' (fun s hs => h s (List.mem_cons_of_mem _ hs))
+    simp only [List.map_cons, List.sum_cons]
+    apply cs_step _ _ _ _ _ _ (abs_nonneg _) (sum_map_nonneg _ _ (fun s _ => abs_nonneg _))
+      (ha r List.mem_cons_self) (sum_map_nonneg _ _ ha') (hb r List.mem_cons_self)
+      (sum_map_nonneg _ _ hb') _ ih'
+    rw [sq_abs]; exact h r List.mem_cons_self
+
+/-- **Pinsker**: `2 TV² ≤ ln 2 · KL_bits` for probability vectors. -/
+theorem pinsker_list (pq : List (ℝ × ℝ)) (hnn : ∀ r ∈ pq, 0 ≤ r.1 ∧ 0 ≤ r.2)
+    (hac : absCont pq = true) (hp : (pq.map Prod.fst).sum = 1) (hq : (pq.map Prod.snd).sum = 1) :
+    2 * (tvVals 2 pq) ^ 2 ≤ Real.log 2 * klSum pq := by
+  have hterm := kl_excess_term_nonneg pq hnn hac
+  have hac' := (absCont_iff pq).mp hac
+  have hcs := cs_list pq (fun r => r.1 - r.2) (fun r => (4 * r.2 + 2 * r.1) / 3)
+    (fun r => r.1 * Real.log (r.1 / r.2) - (r.1 - r.2))
+    (fun r hr => by have := hnn r hr; have h1 := this.1; have h2 := this.2; positivity) hterm
+    (by
+      intro r hr
+      rcases (hnn r hr).2.eq_or_lt with h0 | hpos
+      · have h1 := hac' r hr h0.symm
+        simp [h1, ← h0]
+      · have := pinsker_term r.1 r.2 (hnn r hr).1 hpos
+        show (r.1 - r.2) ^ 2
+          ≤ (4 * r.2 + 2 * r.1) / 3 * (r.1 * Real.log (r.1 / r.2) - (r.1 - r.2))
+        linarith)
+  have hex := kl_excess pq
+  rw [hp, hq, sub_self, sub_zero] at hex
+  rw [← hex] at hcs
+  have hA : (pq.map (fun r => (4 * r.2 + 2 * r.1) / 3)).sum = 2 := by
+    have : ∀ r ∈ pq, (4 * r.2 + 2 * r.1) / 3 = (4 / 3) * r.2 + (2 / 3) * r.1 := by
+      intro r _; ring
+    rw [List.map_congr_left this, sum_map_add, sum_map_mul_left, sum_map_mul_left]
+    have e1 : (pq.map (fun r => r.1)).sum = 1 := hp
+    have e2 : (pq.map (fun r => r.2)).sum = 1 := hq
+    rw [e1, e2]; norm_num
+  rw [hA] at hcs
+  rw [tvVals_eq]
+  have e : 2 * ((pq.map (fun r => |r.1 - r.2|)).sum / 2) ^ 2
+      = ((pq.map (fun r => |r.1 - r.2|)).sum) ^ 2 / 2 := by ring
+  rw [e]
+  linarith
+
+end Pinsker
 
 end Dit.Lemmas.Diverge
